@@ -152,12 +152,14 @@ class _Return(Exception):
 class VecEval:
     MAX_STEPS = 400
 
-    def __init__(self, env: dict, opaque_calls=(), identity_calls=()):
+    def __init__(self, env: dict, opaque_calls=(), identity_calls=(), methods=None, depth=0):
         self.env = {k: _lift(v) for k, v in env.items()}
         self.steps = 0
         self.yields = []
         self.opaque_calls = tuple(opaque_calls)      # constructors of the package: the value is the tuple of the folded arguments
         self.identity_calls = tuple(identity_calls)  # converters that keep the value (tuple of floats of a vector ...)
+        self.methods = dict(methods or {})           # helper methods / functions of the package that may be folded through: name -> FunctionDef
+        self.depth = depth
 
     # ------------------------------------------------------------------ statements
     def run(self, body):
@@ -361,6 +363,15 @@ class VecEval:
     def call(self, e: ast.Call):
         fn = dotted(e.func) or ""
         last = fn.rsplit(".", 1)[-1]
+        if not fn and isinstance(e.func, ast.Attribute):
+            last = e.func.attr  # a method of a computed value: (a / b).astype(...).item()
+        if last == "astype" and isinstance(e.func, ast.Attribute) and len(e.args) >= 1:
+            v_ = self.ev(e.func.value)
+            to_int = "int" in ast.unparse(e.args[0]).lower() and "uint" not in ast.unparse(e.args[0]).lower() or "long" in ast.unparse(e.args[0]).lower()
+            if to_int:
+                import math as _m
+                return tuple(Fraction(_m.trunc(x)) for x in v_) if isinstance(v_, tuple) else Fraction(_m.trunc(v_))
+            return v_
         if "random" in fn or last in ("rand", "randn", "default_rng", "normal", "uniform", "standard_normal"):
             raise Randomised(fn)
         kw = {k.arg: k.value for k in e.keywords if k.arg}
@@ -368,6 +379,31 @@ class VecEval:
             return self.ev(e.args[0])
         if last in self.opaque_calls:
             return ("__obj__", last) + tuple(self.ev(a) for a in e.args)
+        if last in self.methods and self.depth < 3 and (isinstance(e.func, ast.Name) or (isinstance(e.func, ast.Attribute) and isinstance(e.func.value, ast.Name)
+                                                                                           and e.func.value.id in ("self", "cls"))):
+            fn_ = self.methods[last]
+            params = [a.arg for a in fn_.args.posonlyargs + fn_.args.args if a.arg not in ("self", "cls")]
+            defaults = fn_.args.defaults
+            vals = [self.ev(a) for a in e.args]
+            sub_env = {k: v for k, v in self.env.items() if "." in k}
+            for i_, p_ in enumerate(params):
+                if i_ < len(vals):
+                    sub_env[p_] = vals[i_]
+                elif p_ in kw:
+                    sub_env[p_] = self.ev(kw[p_])
+                else:
+                    j_ = i_ - (len(params) - len(defaults))
+                    if j_ < 0:
+                        raise Unsupported(f"missing argument {p_}")
+                    sub_env[p_] = self.ev(defaults[j_])
+            for k_ in fn_.args.kwonlyargs:
+                if k_.arg in kw:
+                    sub_env[k_.arg] = self.ev(kw[k_.arg])
+            sub = VecEval({}, self.opaque_calls, self.identity_calls, self.methods, self.depth + 1)
+            sub.env = sub_env
+            r_ = sub.run(fn_.body)
+            self.steps += sub.steps
+            return r_
         # methods on a value: v.copy(), v.astype(..), v.dot(w), v.argmin() ...
         recv = None
         if isinstance(e.func, ast.Attribute) and not fn.startswith(("np.", "numpy.", "math.")):
